@@ -190,6 +190,18 @@ CLAIMED["C12"] = dict(
          "Model/ClientRandom.v, translator facts, extraction + driver, harness door verif::tls",
     design="DESIGN.md 5 C12")
 
+CLAIMED["C18"] = dict(
+    text="Coq theorems on the model of HttpDemux::select and the speedtest handler (Model/Channels.v): routing precedence and exact "
+         "conditions (ping markers > enabled /speed/ path > reverse-proxy mask with Upgrade on HTTP/1.1 or HTTP/3 > tunnel); GET /Nmb.bin for "
+         "every N in 1..100 (finite sweep lifted) is answered 200 with exactly N x 2^20 bytes whatever the client-side sink accepts per "
+         "write; nothing outside 1..100 is a download, nothing outside 1..120 MiB an upload, anything else is 400. Tied by translator "
+         "facts (select, constants, handler shapes, reverse-proxy destination = settings.server_address through a connect without policy, "
+         "no handler mentions credentials) and by whole sessions on all four channels over HTTP/1.1 and HTTP/2, with and without an "
+         "authenticator, against an origin canary (request head seen by the origin, relay in both directions, private policy on/off)",
+    note="partial: the reverse-proxy relay is C02's DuplexPipe; HTTP/3 reverse proxy not driven; known finding "
+         "upload-of-zero-bytes-refused; trusted: Coq kernel, Model/Channels.v, translator facts, extraction + driver, door verif::session",
+    design="DESIGN.md 5 C18")
+
 PENDING_REASON = "check under construction in this round (designed in DESIGN.md, not yet wired into ./check)"
 
 
